@@ -131,6 +131,7 @@ func c11Base(class string, seed uint64) *vfScenario {
 		sc.Cfg["hopt"] = int64([]int{0, 1, 1 | 128, 8}[rng.IntN(4)])
 	}
 	sc.Cfg["sites"] = int64(1 + rng.IntN(3))
+	sc.Cfg["errwithdata"] = int64(rng.IntN(2))
 	sc.Ops = c11Program(rng)
 	return sc
 }
